@@ -3,7 +3,7 @@ from . import shared as S
 from . import dumpside as D
 
 META = {
-    'claim_added': "Also decided: enum members by name / str() for string-likes and paths; no write to PyYAML's alias bookkeeping; floats written by Node.set_value/set_attribute are spelt by PyYAML's representer (else the dump carries !!float tags). Round 3: the dumping side leaves PyYAML's implicit resolvers alone and overrides no further PyYAML method (R06.10); string-like means exactly str / UserString / String (R06.11). Round 6: R06.15 (= R05.17); an override of a PyYAML method on Dumper is accepted only if it is transparent (checks, then the unchanged arguments to the base method). Round 6 (E14): caches on the code this property is about are invisible - no value that lives in a memo cell (dict / lazily filled attribute / lru_cache) is modified by the code it is handed to, the key of a cell contains every input its value depends on, no mutable parameter default is modified or handed out; given that, the program is analysed as if every lookup missed. Round 11: Node.set_value spells None as a text that resolves to null (text:None under R06.9; F30 fixed by f824033); R06.17 - the node handed to _yatiml_sweeten shares its child nodes with other references to the same objects (known finding F31).",
+    'claim_added': "Also decided: enum members by name / str() for string-likes and paths; no write to PyYAML's alias bookkeeping; floats written by Node.set_value/set_attribute are spelt by PyYAML's representer (else the dump carries !!float tags). Round 3: the dumping side leaves PyYAML's implicit resolvers alone and overrides no further PyYAML method (R06.10); string-like means exactly str / UserString / String (R06.11). Round 6: R06.15 (= R05.17); an override of a PyYAML method on Dumper is accepted only if it is transparent (checks, then the unchanged arguments to the base method). Round 6 (E14): caches on the code this property is about are invisible - no value that lives in a memo cell (dict / lazily filled attribute / lru_cache) is modified by the code it is handed to, the key of a cell contains every input its value depends on, no mutable parameter default is modified or handed out; given that, the program is analysed as if every lookup missed. Round 11: Node.set_value spells None as a text that resolves to null (text:None under R06.9; F30 fixed by f824033); R06.17 - the node handed to _yatiml_sweeten shares its child nodes with other references to the same objects (known finding F31). Round 12: the YAML dump sites pass PyYAML exactly the pinned options (R12.1 runs here: allow_unicode=True writes NEL raw inside a quoted scalar).",
     'level': 'other',
     'technique': 'static: constant-folded tag arguments of every node-constructing call; argument position of sort_keys '
                  'resolved against PyYAML\'s signature; shape of the attribute-pair construction; write-effect analysis '
@@ -46,5 +46,9 @@ def run(ctx):
     A_.r05_17_dump_cycle_walk(ctx, 'R06.15')
     D.r06_16_replaced_node_filed(ctx)
     D.r06_17_hook_sees_shared_children(ctx)
+    # round 12: the YAML dump sites pass PyYAML exactly the options the pinned tree passes (allow_unicode=True makes PyYAML write NEL
+    # raw inside a quoted scalar, where a reader folds it to a space: the text no longer reads back as the projection)
+    from . import shared as S12
+    S12.r12_sinks(ctx)
     from . import memo_rules as M
     M.memo_sound(ctx, 'R06.M')
